@@ -16,13 +16,16 @@ CHECK = dict(
          'the end-guarded placement; distinct_nontrivial = distinct (template, input bytes, declared length) triples, '
          'counted with a hash set over the inputs that show the last deviation (other prefixes are inputs of a case with '
          'fewer deviations); distinct_observations = distinct (decoded structure, accepted?) pairs handed to the helpers. '
+         'Big-header family: full product of 18 fmt-extension lengths (0 .. 16 MiB, on both sides of 2^8, 2^12, 2^16, 2^17, 2^24) x 5 '
+         'cb_size values x 3 format tags x fact chunk or not x 0/2 trailing bytes = 1080 headers, each presented complete and at up to '
+         '18 truncation points around every layout boundary. '
          'Second part (c14asan, AddressSanitizer build of the librfn sources): FULL PRODUCT of an extreme-value menu per numeric '
          'field (format tag 6, channels 9, sample rate 9, block align 5, bits 5, data size 8 values, sub-format 4) over three header '
          'shapes (plain, fmt+fact, extensible), each decoded from an exactly-sized heap buffer, then validate/get_format/tostring on '
          'the result; any ASan report or signal is a violation',
-    bounds=dict(quick='L = 2 (65 793 strings); D = 2 deviating fields out of 13..20, all 5 templates, every truncation length; helpers product family: all 388 800 field combinations',
+    bounds=dict(quick='L = 2 (65 793 strings); D = 2 deviating fields out of 13..20, all 5 templates, every truncation length; helpers product family: all 388 800 field combinations; 1080 big headers (up to 16 MiB) x <= 19 lengths',
                 thorough='L = 3 (16.8 million strings); D = 3 deviating fields, all 5 templates, every truncation length, '
-                         'both guard placements at every length; helpers product family as in quick'),
+                         'both guard placements at every length; helpers product family and big headers as in quick'),
     assumptions=['declared length == real buffer length (the statement\'s "reads only the supplied bytes")',
                  'x86-64/LP64: pointer arithmetic far past the buffer (rf_pack cursor += 0xffffffed) does not fault by itself; '
                  'it is undefined behaviour in C but the property does not speak about it',
@@ -40,6 +43,25 @@ CHECK.update(
                'every truncation length, plus all byte strings up to 2 (3) bytes, decoded by the real code in exactly-sized '
                'guard-paged buffers and compared with a 64-bit reference parser; helpers run on every distinct resulting structure.',
     level_note='Bounded: inputs further than 3 field deviations from a valid header (except the all-numeric-fields product family of the ASan part), menu values not listed and headers longer '
-               'than 70 bytes are not covered. Trusted: the reference parser and the guard-page mechanism.',
+               'than 70 bytes are covered only by the big-header family (skipped fmt extension). Trusted: the reference parser and the guard-page mechanism.',
     design_ref='DESIGN.md section 4, C14',
 )
+
+# build variants: the same enumeration on other builds of the librfn sources (conditional code such as __OPTIMIZE_SIZE__ /
+# __OPTIMIZE__ / __clang__, and compiler-dependent arithmetic, show only there); counted separately by the driver
+def _variants(parts, names):
+    out = []
+    for p in parts:
+        if p['name'] not in names:
+            continue
+        for tag, cc, flags, tiers in (('gcc -Os', 'gcc', ['-Os'], ('quick', 'thorough')), ('clang -O2', 'clang', [], ('thorough',))):
+            q = dict(p)
+            q['name'] = p['name'] + '_' + tag.split()[0] + tag.split()[1].strip('-')
+            q['variant'] = tag
+            q['cc'] = cc
+            q['cflags'] = list(p.get('cflags', [])) + flags
+            q['tiers'] = tiers
+            out.append(q)
+    return out
+CHECK['parts'] = CHECK['parts'] + _variants(CHECK['parts'], ['c14'])
+CHECK['bounds'] = dict((k, v + '; the whole enumeration repeated on a gcc -Os build' + (' and a clang -O2 build' if k == 'thorough' else '') + ' of the librfn sources (counted separately)') for k, v in CHECK['bounds'].items())
